@@ -433,6 +433,11 @@ pub fn run_views(ops: &[DbOp], keys: &[Vec<u8>], moves: &str) -> Vec<View> {
                 // nothing may pin an older version any more
                 for (_, s0) in snaps.drain(..) { db.as_ref().unwrap().release_snapshot(s0); }
                 pinned.clear();
+                // files that only a released snapshot / iterator kept alive are reclaimed by the NEXT
+                // garbage collection, which runs after a flush or a compaction (as in LevelDB): give
+                // it that occasion before judging
+                let _ = db.as_ref().unwrap().force_memtable_compaction();
+                std::thread::sleep(std::time::Duration::from_millis(200));
                 let fs = options.filesystem_provider();
                 if let Some(msg) = faults::leftovers(db.as_ref().unwrap(), &fs, options.db_path()) {
                     DIRCHECK.with(|r| r.borrow_mut().push(format!("op{}: {}", i, msg)));
